@@ -266,6 +266,18 @@ def file_monotone_stream(ctx, stream, n):
         add = sc.place(st, chain)
         tree2 = dict(tree)
         body = tree[f]
+        import re as _re
+
+        froms = [m for m in _re.finditer(r"(?m)^([ \t]*from [\w.]+ import )([A-Za-z_][\w]*(?:, [A-Za-z_]\w*)*)[ \t]*$", body)]
+        if froms and rng.random() < 0.35:
+            # the added import is one more NAME in an existing from-import statement (a plain name, or a sub module)
+            m = rng.choice(froms)
+            extra = rng.choice(["helper_zz", "CONSTANT", "a", "m", "util", "x"])
+            tree2[f] = body[: m.end(2)] + ", " + extra + body[m.end(2):]
+            dirs = sorted(p for p, v in tree.items() if v is None)
+            mp = "proj" if rng.random() < 0.7 else rng.choice(dirs)
+            cases.append((tree, tree2, mp, rng.choice([None, None, 1, 2]), rng.randrange(1 << 30)))
+            continue
         # the new statement goes to the front, to the end, or between two existing top-level chunks: which import of a file
         # is converted first must not matter
         lines = body.split("\n")
